@@ -40,3 +40,7 @@ using nv_base_try_merge_t = bool (nano::wlearner_t::*)(const nano::rwlearner_t&)
 static_assert(std::is_same_v<decltype(&nano::stump_wlearner_t::try_merge), nv_base_try_merge_t>, "stump_wlearner_t overrides try_merge");
 static_assert(std::is_same_v<decltype(&nano::hinge_wlearner_t::try_merge), nv_base_try_merge_t>, "hinge_wlearner_t overrides try_merge");
 static_assert(std::is_same_v<decltype(&nano::dtree_wlearner_t::try_merge), nv_base_try_merge_t>, "dtree_wlearner_t overrides try_merge");
+// default member initialisers of dtree_node_t: the C rendering of `dtree_node_t node;` in dtree.cpp's do_fit is the all-zero
+// struct with m_feature / m_threshold / m_table assigned before use; m_next == 0 ("leaf until linked") is relied on
+static_assert(nano::dtree_node_t{}.m_next == 0U && nano::dtree_node_t{}.m_table == -1 && nano::dtree_node_t{}.m_feature == -1,
+              "dtree_node_t default member initialisers");
